@@ -32,6 +32,10 @@ func runC05(c *Ctx) {
 	}
 	// removed blocks requested as temporary blocks stay retrievable until they are re-applied
 	checkParkedBlocksSurvive(c, "C05.R9 parked-blocks-survive")
+	// the finalized-height marker is the one thing removal does not restore: it only ever moves
+	// up (the argument AddBlock stores is the maximum of the stored and the precommitted
+	// height) — the rule of C04.R3
+	c.MinInstances("C05.R10 finalized-marker-monotone", c.borrowRule(runC04, "C04", "R3 monotone-argument", "C05.R10 finalized-marker-monotone", nil), 1)
 
 	// ---- R1 key-family symmetry
 	checkKeyFamilySymmetry(c, "C05.R1", saveBlock, rmBlock)
